@@ -7,14 +7,14 @@ def main(tier):
     c.set_deadline(1500 if quick else 3300)
     c.build('plain', ['lcx'])
     if quick:
-        c.run_family('plain', 'c05.py', 'graph', args=['--n=3', '--edges=2'], per_case_timeout=30, chunk=24, nsamples=2)
+        c.run_family('plain', 'c05.py', 'graph', args=['--n=3', '--edges=1'], per_case_timeout=30, chunk=12, nsamples=2)
         c.run_family('plain', 'c05.py', 'variant', args=['--n=2'], per_case_timeout=20, chunk=60, nsamples=1)
     else:
         c.run_family('plain', 'c05.py', 'graph', args=['--n=3', '--edges=4'], per_case_timeout=30, chunk=64, nsamples=2)
         c.run_family('plain', 'c05.py', 'variant', args=['--n=3', '--edges=2'], per_case_timeout=20, chunk=200, nsamples=1)
     return c.finish(
         rule='every dependency graph on n <= 3 variables (definition kind of each variable in {initial value, explicit equation, ODE, implicit equation} x every read set over the other '
-             'variables and the variable of integration, explicit definitions acyclic; quick: at most 2 read edges for n = 3, thorough: at most 4) x every placement of the variables over two '
+             'variables and the variable of integration, explicit definitions acyclic; quick: at most 1 read edge for n = 3, thorough: at most 4) x every placement of the variables over two '
              'connected components; each case analyses the model under 9 transformations (component / variable / equation order, three renamings incl. a twin that borrows the name of a '
              'different variable); variants: each equation dropped, each equation duplicated, each state initial value dropped; judged = analyses compared with ground truth, '
              'well-formedness rules and cross-transformation invariance; the identity transformation is also compiled, run (C and Python) and compared with reference values',
